@@ -458,6 +458,18 @@ def _count_chars(e):
     return is_call(e, "count") and e[3] and is_call(e[3][0], "chars")
 
 
+def _range_len(e, r):
+    """e is `r.end - r.start` in one of its spellings (the subtraction itself is DECR's business)"""
+    end, start = ("field", r, "end"), ("field", r, "start")
+    if is_call(e, "saturating_sub") and tuple(e[3]) == (end, start):
+        return True
+    if is_call(e, "len") and len(e[3]) == 1 and e[3][0] == r:
+        return True         # ExactSizeIterator::len of a Range<usize>
+    if is_bin(e, "Sub") and e[2] == end and is_call(e[3], "min") and set(e[3][3]) == {start, end}:
+        return True
+    return mir.lin_eq(e, ("bin", "Sub", end, start))
+
+
 def _len_spec():
     """list of (description, selector(body)->bool, expected(kind, expr, body)->bool)"""
     def fam(*f):
@@ -477,12 +489,11 @@ def _len_spec():
         ("read: len", lambda b: b.trait == "BitVector" and b.name == "read" and b.self_family in ("Bvf", "Bvd"),
          lambda k, e, b: e == P(b.local_name(2))),
         ("copy_range: e - s", lambda b: b.trait == "BitVector" and b.name == "copy_range" and b.self_family in ("Bvf", "Bvd"),
-         lambda k, e, b: is_bin(e, "Sub") and e[2] == ("field", P(b.local_name(2)), "end") and (
-             e[3] == ("field", P(b.local_name(2)), "start") or (is_call(e[3], "min") and set(e[3][3]) == {("field", P(b.local_name(2)), "start"), ("field", P(b.local_name(2)), "end")}))),
+         lambda k, e, b: _range_len(e, P(b.local_name(2)))),
         ("push: len+1", lambda b: b.trait == "BitVector" and b.name == "push" and b.self_family in ("Bvf", "Bvd"),
-         lambda k, e, b: e == ("bin", "Add", SELF_LEN, ("int", 1))),
+         lambda k, e, b: mir.lin_eq(e, ("bin", "Add", SELF_LEN, ("int", 1)))),
         ("pop: len-1", lambda b: b.trait == "BitVector" and b.name == "pop" and b.self_family in ("Bvf", "Bvd"),
-         lambda k, e, b: e == ("bin", "Sub", SELF_LEN, ("int", 1))),
+         lambda k, e, b: mir.lin_eq(e, ("bin", "Sub", SELF_LEN, ("int", 1)))),
         ("resize: n", lambda b: b.trait == "BitVector" and b.name == "resize" and b.self_family in ("Bvf", "Bvd"),
          lambda k, e, b: e == P(b.local_name(2))),
         ("fresh result of a kernel: self.length", lambda b: b.self_family in ("Bvf", "Bvd") and (
@@ -577,7 +588,7 @@ def buffer_sizes(crate):
     res = []
     for b in crate.bodies:
         if b.trait == "BitVector" and b.name in ("to_vec", "read") and b.self_family in ("Bvf", "Bvd"):
-            L = SELF_LEN if b.name == "to_vec" else P("length")
+            L = SELF_LEN if b.name == "to_vec" else P(b.local_name(2))
             want = ("bin", "Div", ("bin", "Add", L, ("int", 7)), ("int", 8))
             ok = False
             for bb, t, fn in b.iter_calls():
@@ -672,7 +683,7 @@ def read_protocol(crate):
         ok = False
         if root is not None:
             init = b.init_expr(root[2])
-            want = ("bin", "Div", ("bin", "Add", P("length"), ("int", 7)), ("int", 8))
+            want = ("bin", "Div", ("bin", "Add", P(b.local_name(2)), ("int", 7)), ("int", 8))
             if init is not None and is_call(init, "collect") and is_call(init[3][0], "take") and init[3][0][3][1] == want:
                 ok = True
         if not ok:
@@ -685,7 +696,7 @@ def read_protocol(crate):
             g = False
             for sb, cond, taken, succ, other in guard.edges_dominating(b, bb):
                 for op, l, r in guard.relations_on_edge(cond, taken):
-                    if op == "Le" and l == P("length") and guard.is_capacity_call(r):
+                    if op == "Le" and l == P(b.local_name(2)) and guard.is_capacity_call(r):
                         g = True
             if not g:
                 res.append((b, key, "violation", "the reader is consumed before the capacity check"))
@@ -826,36 +837,6 @@ def _assigns_const(b, blk, vals):
     return False
 
 
-def iterator_consts(crate):
-    res = []
-    for b in crate.bodies:
-        if not (b.self_ty or "").startswith("BitIterator"):
-            continue
-        rng = ("field", ("param", "self"), "range")
-        diff = ("bin", "Sub", ("field", rng, "end"), ("field", rng, "start"))
-        if b.name == "count":
-            ok = b.return_expr() == diff
-            res.append((b, "%s|CONST" % b.key, "pass" if ok else "violation", "count = end - start" if ok else "count is %s" % show(b.return_expr())))
-        if b.name == "size_hint":
-            r = b.return_expr()
-            ok = r[0] == "tuple" and r[1][0] == diff and r[1][1][0] == "agg" and r[1][1][2] == "Some" and r[1][1][3] == (diff,)
-            res.append((b, "%s|CONST" % b.key, "pass" if ok else "violation", "size_hint = (end-start, Some(end-start))" if ok else "size_hint is %s" % show(r)))
-        if b.name == "new":
-            r = b.return_expr()
-            ok = r[0] == "agg" and len(r[3]) == 2 and r[3][1][0] == "agg" and r[3][1][3][0] == ("int", 0) and is_call(r[3][1][3][1], "len")
-            res.append((b, "%s|CONST" % b.key, "pass" if ok else "violation", "range 0..len" if ok else "range is %s" % show(r)))
-        if b.name in ("next", "next_back", "nth", "nth_back", "last"):
-            # the element returned is get(bv, index) with index inside the guarded range
-            gets = [b.e_call(t) for bb, t, fn in b.iter_calls() if fn and fn["name"] == "get"]
-            want = {"next": ("field", rng, "start"), "last": ("bin", "Sub", ("field", rng, "end"), ("int", 1)),
-                    "nth": ("bin", "Add", ("field", rng, "start"), ("param", "n")), "next_back": ("field", rng, "end"),
-                    "nth_back": ("field", rng, "end")}[b.name]
-            ok = len(gets) == 1 and gets[0][3][1] == want
-            res.append((b, "%s|CONST index" % b.key, "pass" if ok else "violation",
-                        "yields get(%s)" % show(want) if ok else "yields %s, expected get(%s)" % ([show(g) for g in gets], show(want))))
-    return res
-
-
 # --------------------------------------------------------------------------------------------
 # SAFE
 # --------------------------------------------------------------------------------------------
@@ -956,7 +937,7 @@ def trait_defaults(crate):
         ok = len(cr) == 1 and len(rs) == 1 and b.block_dominates(cr[0][0], rs[0][0]) and cr[0][0] != rs[0][0]
         if ok:
             rng = cr[0][2][1]
-            ok = rng[0] == "agg" and rng[3][0] == P("index") and is_call(rng[3][1], "len") and rs[0][2][1] == P("index") \
+            ok = rng[0] == "agg" and rng[3][0] == P(b.local_name(2)) and is_call(rng[3][1], "len") and rs[0][2][1] == P(b.local_name(2)) \
                 and show(rs[0][2][2]).endswith("Zero")
             ret = b.return_expr()
             ok = ok and is_call(ret, "copy_range")
@@ -971,26 +952,26 @@ def trait_defaults(crate):
     if b is not None:
         cs = [c for c in calls_in_order(b) if c[1] in ("split_off", "append", "prepend", "resize")]
         names = [c[1] for c in cs]
-        ok = names == ["split_off", "append", "append"] and cs[1][2][1] == P("infix") and is_call(cs[2][2][1], "split_off") \
-            and b.block_dominates(cs[0][0], cs[1][0]) and b.block_dominates(cs[1][0], cs[2][0]) and cs[0][2][1] == P("index")
+        ok = names == ["split_off", "append", "append"] and cs[1][2][1] == P(b.local_name(3)) and is_call(cs[2][2][1], "split_off") \
+            and b.block_dominates(cs[0][0], cs[1][0]) and b.block_dominates(cs[1][0], cs[2][0]) and cs[0][2][1] == P(b.local_name(2))
         res.append((b, "ORDER insert", "pass" if ok else "violation",
                     "split_off(index); append(infix); append(tail)" if ok else "insert is %s" % [(c[1], [show(a) for a in c[2]]) for c in cs]))
     b = defaults.get("truncate")
     if b is not None:
         cs = [c for c in calls_in_order(b) if c[1] == "resize"]
-        ok = len(cs) == 1 and cs[0][2][1] == P("new_len")
+        ok = len(cs) == 1 and cs[0][2][1] == P(b.local_name(2))
         g = False
         if ok:
             for sb, cond, taken, succ, other in guard.edges_dominating(b, cs[0][0]):
                 for op, l, r in guard.relations_on_edge(cond, taken):
-                    if op == "Lt" and l == P("new_len") and is_call(r, "len"):
+                    if op == "Lt" and l == P(b.local_name(2)) and is_call(r, "len"):
                         g = True
         res.append((b, "ORDER truncate", "pass" if ok and g else "violation",
                     "resize(new_len) only when new_len < len" if ok and g else "truncate is not `if new_len < len { resize(new_len) }`"))
     b = defaults.get("sign_extend")
     if b is not None:
         cs = [c for c in calls_in_order(b) if c[1] == "resize"]
-        ok = len(cs) == 1 and cs[0][2][1] == P("new_length")
+        ok = len(cs) == 1 and cs[0][2][1] == P(b.local_name(2))
         sign_ok = False
         if ok:
             s = cs[0][2][2]
@@ -1030,9 +1011,14 @@ def trait_defaults(crate):
             cs = calls_in_order(b)
             g = [c for c in cs if c[1] == "get"]
             s = [c for c in cs if c[1] == "set"]
-            ok = len(g) == 1 and len(s) == 1 and (b.block_dominates(g[0][0], s[0][0]))
-            res.append((b, "ORDER %s" % b.key, "pass" if ok else "violation",
-                        "reads bit len-1 before clearing it" if ok else "pop does not read the bit before clearing it"))
+            if len(g) == 1 and len(s) == 1:
+                ok = b.block_dominates(g[0][0], s[0][0])
+                res.append((b, "ORDER %s" % b.key, "pass" if ok else "violation",
+                            "reads bit len-1 before clearing it" if ok else "pop clears the bit (set) before reading it (get)"))
+            else:
+                # raw word access instead of get/set: the read/clear order is not visible at call level
+                res.append((b, "ORDER %s" % b.key, "undecided",
+                            "pop does not use one get and one set (%d get, %d set): read-before-clear order not decided" % (len(g), len(s))))
     # Extend / FromIterator: reserve/with_capacity + push only
     for b in crate.bodies:
         if b.kind == "Closure" or b.trait not in ("Extend", "FromIterator") or b.self_family not in ("Bvf", "Bvd", "Bv"):
@@ -1232,6 +1218,11 @@ def div_rem_siblings(crate):
 # to_vec: endianness arms
 # --------------------------------------------------------------------------------------------
 
+def _is_byte_buf(b, root):
+    """a local Vec<u8> / [u8] buffer (whatever its name)"""
+    return root[0] == "var" and len(root) > 2 and "u8" in b.local_ty(root[2]) and ("Vec<" in b.local_ty(root[2]) or "[u8" in b.local_ty(root[2]))
+
+
 def to_vec_arms(crate):
     res = []
     for b in crate.bodies:
@@ -1240,7 +1231,7 @@ def to_vec_arms(crate):
         sw = None
         for sb, t in b.iter_switches():
             e, m = b.switch_cond(sb)
-            if e == ("discr", P("endianness")):
+            if e == ("discr", P(b.local_name(2))):       # the endianness is the first argument after self
                 sw = (sb, m)
         if sw is None:
             res.append((b, "%s|endianness arms" % b.key, "violation", "no match on the endianness"))
@@ -1262,20 +1253,23 @@ def to_vec_arms(crate):
             for bb, i, st in b.iter_stmts():
                 if bb in reach and st["s"] == "assign" and st["p"]["pr"]:
                     pe = b.e_place(st["p"])
-                    if pe[0] == "index" and root_of(pe)[0] == "var" and root_of(pe)[1] == "buf":
+                    if pe[0] == "index" and _is_byte_buf(b, root_of(pe)):
                         idxs.append(pe[2])
             for bb, t, fn in b.iter_calls():
                 if bb in reach and fn and fn["name"] == "index_mut":
                     e = b.e_call(t)
-                    if root_of(e[3][0])[:2] == ("var", "buf"):
+                    if _is_byte_buf(b, root_of(e[3][0])):
                         idxs.append(e[3][1])
             if not idxs:
                 undecided.append("%s-endian arm does not store bytes into an indexed buffer (unrecognised packing idiom)" % want)
                 continue
             for ix in idxs:
-                if want == "little" and ix[0] != "iv":
+                co, k = mir.linear(ix)
+                ivc = co.get(("iv",), 0)
+                others = {a: c for a, c in co.items() if a != ("iv",)}
+                if want == "little" and not (ivc == 1 and not others and k == 0):
                     probs.append("little-endian arm stores byte i at `%s`, expected buf[i]" % show(ix))
-                if want == "big" and not (is_bin(ix, "Sub") and ix[3] == ("int", 1) and is_bin(ix[2], "Sub") and ix[2][3][0] == "iv"):
+                if want == "big" and not (ivc == -1 and k == -1 and others and all(c == 1 for c in others.values()) and len(others) == 1):
                     probs.append("big-endian arm stores byte i at `%s`, expected buf[n - i - 1]" % show(ix))
         if undecided and not probs:
             res.append((b, "%s|endianness arms" % b.key, "undecided", "; ".join(undecided)))
